@@ -389,7 +389,7 @@ Qed.
 Fixpoint check_pairs (o : op) (s t : ty) (ps : list Z) (l : list (Z * Z)) : bool :=
   match ps, l with
   | [], [] => true
-  | p :: ps', x :: l' => check1 o s t p (fst x) (undelta (fst x) p (snd x)) && check_pairs o s t ps' l'
+  | p :: ps', x :: l' => check1 o s t p (fst x) (undelta s (fst x) p (snd x)) && check_pairs o s t ps' l'
   | _, _ => false
   end.
 
@@ -415,8 +415,8 @@ Proof.
       rewrite (IH k tc d L HL). reflexivity.
 Qed.
 
-Lemma undelta_delta : forall tc p w, undelta tc p (delta tc p w) = w.
-Proof. intros tc p w. unfold undelta, delta. destruct (is_int_code tc); lia. Qed.
+Lemma undelta_delta : forall s tc p w, undelta s tc p (delta s tc p w) = w.
+Proof. intros s tc p w. unfold undelta, delta. destruct (use_delta s tc); lia. Qed.
 
 Lemma check_pairs_enc : forall cfg o s t lo hi ps,
   cfg_ok cfg = true -> tgt_ok t = true -> src_range s = Some (lo, hi) ->
